@@ -36,21 +36,24 @@ ALLJ = TDict(TDisc, JADDR)
 NSET = z3.ArraySort(StrS, B)
 
 mat = z3.Function("c09n_mat", ValS, MatrixS)  # the matrix an array content denotes
-sn = z3.Function("c09n_sorted_n", NSET, NSET, I)  # sorted(A & B): length
-sa = z3.Function("c09n_sorted_at", NSET, NSET, I, StrS)  # ... element at a position
-sp = z3.Function("c09n_sorted_pos", NSET, NSET, StrS, I)  # ... position of an element
+# sorted(keys(row) & keys(jacobian)): the arguments are the two dictionary VALUES (records), not their key-set arrays: array-sorted arguments of
+# uninterpreted functions make z3 compare every pair of such arrays (extensionality witnesses = new names = more instances)
+sn = z3.Function("c09n_sorted_n", JROW.sort(), JADDR.sort(), I)  # length
+sa = z3.Function("c09n_sorted_at", JROW.sort(), JADDR.sort(), I, StrS)  # ... element at a position
+sp = z3.Function("c09n_sorted_pos", JROW.sort(), JADDR.sort(), StrS, I)  # ... position of an element
 
 
-def sorted_facts(A, Bm):
-    """sorted(A & B) is a bijective enumeration of the intersection (ASSUMED model of set.intersection + sorted; order not modelled)."""
+def sorted_facts(R, D):
+    """sorted(keys(R) & keys(D)) is a bijective enumeration of the intersection (ASSUMED model of set.intersection + sorted; order not modelled)."""
+    A, Bm = JROW.acc(0)(R), JADDR.acc(0)(D)
     p, q = z3.Int("p!srt"), z3.Int("q!srt")
     y = z3.Const("y!srt", StrS)
     # (triggers chosen so that the facts do not feed one another: no position term is created from an element term)
     return [
-        sn(A, Bm) >= 0,
-        z3.ForAll([p], z3.Implies(z3.And(0 <= p, p < sn(A, Bm)), z3.And(A[sa(A, Bm, p)], Bm[sa(A, Bm, p)])), patterns=[sa(A, Bm, p)]),
-        z3.ForAll([p, q], z3.Implies(z3.And(0 <= p, p < q, q < sn(A, Bm)), sa(A, Bm, p) != sa(A, Bm, q)), patterns=[z3.MultiPattern(sa(A, Bm, p), sa(A, Bm, q))]),
-        z3.ForAll([y], z3.Implies(z3.And(A[y], Bm[y]), z3.And(0 <= sp(A, Bm, y), sp(A, Bm, y) < sn(A, Bm), sa(A, Bm, sp(A, Bm, y)) == y)), patterns=[sp(A, Bm, y)]),
+        sn(R, D) >= 0,
+        z3.ForAll([p], z3.Implies(z3.And(0 <= p, p < sn(R, D)), z3.And(A[sa(R, D, p)], Bm[sa(R, D, p)])), patterns=[sa(R, D, p)]),
+        z3.ForAll([p, q], z3.Implies(z3.And(0 <= p, p < q, q < sn(R, D)), sa(R, D, p) != sa(R, D, q)), patterns=[z3.MultiPattern(sa(R, D, p), sa(R, D, q))]),
+        z3.ForAll([y], z3.Implies(z3.And(A[y], Bm[y]), z3.And(0 <= sp(R, D, y), sp(R, D, y) < sn(R, D), sa(R, D, sp(R, D, y)) == y)), patterns=[sp(R, D, y)]),
     ]
 
 
@@ -123,7 +126,8 @@ class C09NumModels:
             for f in o.wf_facts(st):
                 st.assume(f)
             ref = st.alloc(o)
-            st.ghost.setdefault("c09n_parts", {})[ref.id] = (a.member, mb)
+            if z3.is_app(a.member) and a.member.decl().eq(JROW.acc(0)) and z3.is_app(mb) and mb.decl().eq(JADDR.acc(0)):
+                st.ghost.setdefault("c09n_parts", {})[ref.id] = (a.member.arg(0), mb.arg(0))  # the two dictionary values
             return ref
         return NotImplemented
 
@@ -134,14 +138,14 @@ class C09NumModels:
         parts = st.ghost.get("c09n_parts", {}).get(args[0].id)
         if parts is None:
             return NotImplemented
-        A, Bm = parts
-        for f in sorted_facts(A, Bm):
+        R, D = parts
+        for f in sorted_facts(R, D):
             st.assume(f)
         el = st.fresh_const("sorted_el", z3.ArraySort(I, StrS))
         p = z3.Int("p!sel")
-        st.assume(z3.ForAll([p], el[p] == sa(A, Bm, p), patterns=[el[p]]))
+        st.assume(z3.ForAll([p], el[p] == sa(R, D, p), patterns=[el[p]]))
         ex.assumed.add("sorted(set(a).intersection(b)) of names: a bijective enumeration of the intersection, a function of the two key sets (the lexicographic order itself is not modelled)")
-        lo = ListObj(TStr, sn(A, Bm), el)
+        lo = ListObj(TStr, sn(R, D), el)
         return st.alloc(lo)
 
     # ------------------------------------------------------------------ blocks
